@@ -324,3 +324,35 @@ def write_evidence(acc, nviol, known):
     }
     with open(os.path.join(EVIDENCE, f"{acc.prop}.json"), "w") as f:
         json.dump(ev, f, indent=1)
+
+
+def scope_validate(acc, scope_trace, prop, closed_only_unbound):
+    """impl -> spec: the evaluator's (com ..) scope events (hook verif_event in /repo) against ComScope.tla's invariant.
+    bad = ill-scoped com; unbound = a program variable free in the code that is neither parameter nor environment
+    (reported for closed REPL sessions / programs only when closed_only_unbound, open sessions are finding C16-K1)."""
+    import json as _json
+    if not os.path.exists(scope_trace) or os.path.getsize(scope_trace) == 0:
+        raise ToolError("no evaluator scope events were recorded (is the hook in /repo compiled in?)")
+    res = trace_validate(acc, "Trace_ComScope", "Trace_ComScope.cfg", scope_trace, "Trace_ComScope", timeout=3000)
+    recs = [_json.loads(l) for l in open(scope_trace)]
+    out = []
+    for (l, i) in res["bad"][:50]:
+        r = recs[l - 1]
+        out.append({"property": prop, "kind": "evaluator-com-ill-scoped", "event": r["events"][i - 1],
+                    "where": {k: r[k] for k in ("expr", "defs", "source", "open") if k in r}})
+    nunb = 0
+    for (l, i) in res["unbound"]:
+        r = recs[l - 1]
+        if closed_only_unbound and r.get("open"):
+            nunb += 1
+            continue
+        out.append({"property": prop, "kind": "program-variable-unbound-in-com", "event": r["events"][i - 1],
+                    "where": {k: r[k] for k in ("expr", "defs", "source", "open") if k in r}})
+    acc.counts["scope_records"] = res["cnt"]["records"]
+    acc.counts["scope_events"] = res["cnt"]["events"]
+    acc.counts["scope_rebinding_events"] = res["cnt"]["rebinding_events"]
+    acc.counts["scope_unbound_in_open_sessions"] = nunb
+    if res["cnt"]["rebinding_events"] == 0:
+        raise ToolError("vacuous: no (com ..) event rebinds anything")
+    os.remove(scope_trace)
+    return out
